@@ -1,6 +1,6 @@
 SPECIFICATION Spec
-CONSTANT MaxLen = 6
-CONSTANT Instances = {"mem", "frame"}
+CONSTANT MaxLen = 10
+CONSTANT Instances = {"frame"}
 INVARIANT DepsExact
 INVARIANT ConflictsOrdered
 INVARIANT ReadsUnordered
